@@ -676,7 +676,9 @@ def check_align_gen(ctx: Ctx, case, use_model=True):
             csn = float(st["cs"].abs().max())
             ctn = float(st["ct"].abs().max())
             tols = 32 * eps * (1 + cent * sab / max(S[0] + gap, 1e-300)) if fn == "svdstf" else 0.0
-            tolt = 3 * (tolR + tols) * msc * csn + 16 * eps * (ctn + 3 * msc * csn) + 1e-300
+            # the centroids are sums of N coordinates of size D: their rounding error scales with D, not with the (possibly zero:
+            # symmetric clouds) centroid itself
+            tolt = 3 * (tolR + tols) * msc * csn + 16 * eps * (st["Dt"] + 3 * msc * st["Ds"]) + 1e-300
             et = max(abs(float(Xf[i][j]) - mt[j]) for j in range(3))
             track(f"trans.{dtype}", et, tolt)
             if not (et <= tolt):
@@ -1292,7 +1294,7 @@ def epnp_compare(ctx, case, est, T, pts, pix, K) -> bool:
             ok = False
     err = P.reprojerr(pts, pix, K, est, reduction="norm")
     emax = float(err.max())
-    if not (emax <= 1e-4 * float(K[0, 0]) / 500 + 1e-5):
+    if not (emax <= 1e-4 * abs(float(K[0, 0])) / 500 + 1e-5):
         ctx.fail(case, f"reproject: EPnP pose has reprojection error {emax:.3e} px on exact projections (N={case['N']}, refine={case['refine']})")
         ok = False
     return ok
@@ -2630,6 +2632,255 @@ def run_large(ctx: Ctx):
         check_large(ctx, sp)
 
 
+
+# ----------------------------------------------------------------------------- round 4: ties (20), subclasses (21), mode order (23),
+# default dtype (25), sign conventions (26)
+
+@contextlib.contextmanager
+def default_dtype(dt):
+    old = torch.get_default_dtype()
+    torch.set_default_dtype(dt)
+    try:
+        yield
+    finally:
+        torch.set_default_dtype(old)
+
+
+def _rand_problem(r, N, dt, far=0.0):
+    src = torch.tensor([[r.gauss(0, 1) + far for _ in range(3)] for _ in range(N)], dtype=torch.float64)
+    q = torch.tensor(U.rand_quat(r, "uniform"), dtype=torch.float64)
+    tgt = src @ U.quat_mat_t(q).T + torch.tensor([r.gauss(0, 1) for _ in range(3)], dtype=torch.float64) + \
+        0.05 * torch.tensor([[r.gauss(0, 1) for _ in range(3)] for _ in range(N)], dtype=torch.float64)
+    return src.to(dt), tgt.to(dt)
+
+
+def _epnp_problem(r, N, dt, fx=500.0, fy=480.0):
+    P = pp()
+    sp = epnp_spec(r, N=N, batch=0, depth=3.0, aniso=1.0)
+    pts, q, t, _ = epnp_scene(sp)
+    K = torch.tensor([[fx, 0.0, 320.0], [0.0, fy, 240.0], [0.0, 0.0, 1.0]], dtype=torch.float64)
+    pts = torch.tensor(pts, dtype=torch.float64)
+    T = P.SE3(torch.tensor(t + q, dtype=torch.float64))
+    pix = P.point2pixel(pts, K, T)
+    return pts.to(dt), pix.to(dt), K.to(dt), T, sp
+
+
+def check_round4(ctx: Ctx, seed: int) -> bool:
+    P = pp()
+    r = random.Random(seed)
+    ok = True
+    quiet = lambda: warnings.catch_warnings()      # noqa: E731
+
+    # ---- (20) exactly equidistant targets: every source point has two nearest targets at exactly the same distance
+    for dtn in ("float64", "float32"):
+        dt = getattr(torch, dtn)
+        eps = common.EPS[dtn]
+        for N in (3, 8, 26):
+            case = {"kind": "round4", "seed": seed, "what": "icp-ties", "N": N, "dtype": dtn}
+            src = torch.tensor([[float(r.randint(-8, 8)) * 0.5 for _ in range(3)] for _ in range(N)], dtype=dt)
+            e = torch.tensor([0.25, 0.0, 0.0], dtype=dt)
+            tgt = torch.cat([src + e, src - e], 0)[torch.randperm(2 * N, generator=torch.Generator().manual_seed(seed + N))]
+            cube = torch.tensor([[a, b, c] for a in (-1.0, 1.0) for b in (-1.0, 1.0) for c in (-1.0, 1.0)], dtype=dt)
+            h = math.sqrt(0.5)
+            rot45 = torch.tensor([[h, -h, 0.0], [h, h, 0.0], [0.0, 0.0, 1.0]], dtype=dt)
+            for name, a, b in (("midpoints", src, tgt), ("cube-45deg", cube, cube @ rot45.T), ("identical", src, src.clone())):
+                for stp in (None, FixedStepper(2)):
+                    try:
+                        with quiet():
+                            warnings.simplefilter("ignore")
+                            out = (P.module.ICP(stepper=stp) if stp is not None else P.module.ICP())(a, b)
+                    except Exception as ex:  # noqa: BLE001
+                        ctx.fail(dict(case, config=name), f"raises: ICP raises {type(ex).__name__}: {str(ex)[:100]} on exactly equidistant targets ({name}, N={N}, {dtn})")
+                        ok = False
+                        continue
+                    ctx.count("round4.icp-ties")
+                    O = raw(out).double()
+                    D = float(max(a.abs().max(), b.abs().max()))
+                    delta = ICP_DELTA_K * eps * D
+                    E0 = U.mscd(a.double(), b.double())
+                    En = U.mscd(U.apply_vec(O, a.double()), b.double()) if torch.isfinite(O).all() else float("inf")
+                    if not (abs(float(O[3:7].norm()) - 1) <= UNIT_TOL * eps and En <= E0 + delta * delta + 2 * delta * math.sqrt(E0) + 64 * eps * E0):
+                        ctx.fail(dict(case, config=name), f"monotone: ICP on exactly equidistant targets ({name}, N={N}, {dtn}): |q| = {float(O[3:7].norm())!r}, mean "
+                                                          f"squared closest-point distance {En:.6e} > {E0:.6e} of the initial transform")
+                        ok = False
+
+    # ---- (21) user subclasses of the shipped classes behave by their own methods
+    class KPasses(P.utils.ReduceToBason):
+        """a user stepper derived from the shipped one: stops after exactly k passes, whatever the loss does"""
+
+        def __init__(self, k_):
+            super().__init__(steps=1000)
+            self.k_, self.mine = k_, 0
+
+        def continual(self):
+            return self.mine < self.k_
+
+        def step(self, loss):
+            self.mine += 1
+
+        def reset(self):
+            super().reset()
+            self.mine = 0
+
+    class ShiftedICP(P.module.ICP):
+        """a user module derived from ICP: always starts from its own stored guess"""
+
+        def __init__(self, guess):
+            super().__init__()
+            self.guess = guess
+
+        def forward(self, source, target):     # noqa: D102
+            return super().forward(source, target, init=self.guess)
+
+    class NoRefineEPnP(P.module.EPnP):
+        """a user module derived from EPnP whose refinement is the identity"""
+
+        @staticmethod
+        def _refine(beta, nullv, bases):
+            return beta
+
+    for dtn in ("float64", "float32"):
+        dt = getattr(torch, dtn)
+        a, b = _rand_problem(r, 11, dt)
+        case = {"kind": "round4", "seed": seed, "what": "subclass", "dtype": dtn}
+        try:
+            with quiet():
+                warnings.simplefilter("ignore")
+                for k_ in (1, 3):
+                    st = KPasses(k_)
+                    o1 = P.module.ICP(stepper=st)(a, b)
+                    o2 = P.module.ICP(stepper=FixedStepper(k_))(a, b)
+                    ctx.count("round4.subclass")
+                    if st.mine != k_ or not lie_equal(o1, o2):
+                        ctx.fail(case, f"subclass: ICP with a user stepper derived from ReduceToBason (stop after {k_} passes) made {st.mine} passes / differs from "
+                                       f"exactly {k_} passes by {float((raw(o1).double() - raw(o2).double()).abs().max()):.3e}")
+                        ok = False
+                g = P.SE3(torch.tensor([0.1, -0.2, 0.05] + U.rand_quat(r, "small"), dtype=torch.float64).to(dt))
+                o3 = ShiftedICP(g)(a, b)
+                o4 = P.module.ICP()(a, b, init=g)
+                if not lie_equal(o3, o4):
+                    ctx.fail(case, "subclass: a user module derived from ICP (forward → super().forward(init=own guess)) differs from ICP with that init")
+                    ok = False
+            pts, pix, K, T, sp = _epnp_problem(r, 12, torch.float64)
+            with quiet():
+                warnings.simplefilter("ignore")
+                e1 = NoRefineEPnP(K, refine=True)(pts, pix)
+                e2 = P.module.EPnP(K, refine=False)(pts, pix)
+            d = float((raw(e1) - raw(e2)).abs().max())
+            ctx.count("round4.subclass")
+            if not (d <= 1e-8):
+                ctx.fail(case, f"subclass: a user EPnP whose _refine is the identity differs from EPnP(refine=False) by {d:.3e}")
+                ok = False
+            ok = epnp_compare(ctx, dict(sp, kind="round4", what="subclass-epnp", refine=False), e1, T, pts, pix, K) and ok
+        except Exception as ex:  # noqa: BLE001
+            ctx.fail(case, f"raises: a user subclass of ICP / EPnP / ReduceToBason raises {type(ex).__name__}: {str(ex)[:120]}")
+            ok = False
+
+    # ---- (23) order of grad modes on a key (N, shape, dtype) that is fresh in the process for the first mode
+    fresh_N = [17, 19, 23, 29, 31, 37]
+    r.shuffle(fresh_N)
+    for what in ("svdtf", "svdstf", "ICP", "EPnP"):
+        for order in (("inference", "requires_grad", "plain"), ("requires_grad", "no_grad", "inference", "plain")):
+            N = fresh_N.pop() + (seed % 5) * 40 if fresh_N else 41 + seed % 50
+            dtn = r.choice(["float64", "float32"]) if what != "EPnP" else "float64"
+            dt = getattr(torch, dtn)
+            case = {"kind": "round4", "seed": seed, "what": "mode-order", "fn": what, "N": N, "order": list(order), "dtype": dtn}
+            if what == "EPnP":
+                pts, pix, K, T, sp = _epnp_problem(r, N, dt)
+                f = lambda a_, b_: P.module.EPnP(K, refine=False)(a_, b_)       # noqa: E731
+                a, b = pts, pix
+            else:
+                a, b = _rand_problem(r, N, dt)
+                f = {"svdtf": P.svdtf, "svdstf": P.svdstf, "ICP": lambda a_, b_: P.module.ICP(stepper=FixedStepper(2))(a_, b_)}[what]
+            outs = []
+            try:
+                for mode in order:
+                    aa, bb = as_mode(a, mode), as_mode(b, mode)
+                    with quiet(), grad_mode(mode):
+                        warnings.simplefilter("ignore")
+                        y = f(aa, bb)
+                    if mode == "requires_grad" and what in ("svdtf", "svdstf"):
+                        y.tensor().sum().backward()
+                        if aa.grad is None or not torch.isfinite(aa.grad).all():
+                            ctx.fail(case, f"backward: gradient of {what} missing / not finite after the call order {order[:order.index(mode) + 1]}")
+                            ok = False
+                    outs.append(raw(y).clone())
+            except Exception as ex:  # noqa: BLE001
+                ctx.fail(case, f"raises: {what} raises {type(ex).__name__}: {str(ex)[:100]} in grad mode {mode} after the modes {order[:order.index(mode)]} "
+                               f"on the same (N={N}, {dtn}) key")
+                ok = False
+                continue
+            ctx.count("round4.mode-order")
+            ref = outs[-1]
+            for mode, y in zip(order, outs):
+                close = torch.equal(y, ref) if what != "EPnP" else bool((y - ref).abs().max() <= 1e-9)
+                if not close:
+                    ctx.fail(case, f"grad-mode: {what} in mode {mode} (call order {order}, N={N}, {dtn}) differs from the plain call by "
+                                   f"{float((y.double() - ref.double()).abs().max()):.3e}")
+                    ok = False
+
+    # ---- (25) process-wide default dtype: metadata and values must not depend on it
+    for what in ("svdtf", "svdstf", "svdstf-noscale", "ICP", "EPnP"):
+        for dtn, other in (("float32", torch.float64), ("float64", torch.float32)):
+            dt = getattr(torch, dtn)
+            case = {"kind": "round4", "seed": seed, "what": "default-dtype", "fn": what, "dtype": dtn, "default": str(other)}
+            nbx = r.choice([(), (3,)])
+            if what == "EPnP":
+                pts, pix, K, T, sp = _epnp_problem(r, 9, dt)
+                f = lambda: P.module.EPnP(K, refine=False)(pts, pix)       # noqa: E731
+            else:
+                ab = [_rand_problem(r, 7, dt) for _ in range(max(1, int(math.prod(nbx))))]
+                a = torch.stack([x[0] for x in ab]).reshape(nbx + (7, 3))
+                b = torch.stack([x[1] for x in ab]).reshape(nbx + (7, 3))
+                f = {"svdtf": lambda: P.svdtf(a, b), "svdstf": lambda: P.svdstf(a, b), "svdstf-noscale": lambda: P.svdstf(a, b, with_scale=False),
+                     "ICP": lambda: P.module.ICP(stepper=FixedStepper(2))(a, b)}[what]
+            try:
+                with quiet():
+                    warnings.simplefilter("ignore")
+                    with default_dtype(dt):
+                        y0 = f()
+                    with default_dtype(other):
+                        y1 = f()
+            except Exception as ex:  # noqa: BLE001
+                ctx.fail(case, f"raises: {what} on {dtn} operands raises {type(ex).__name__}: {str(ex)[:100]} when the process default dtype is {other}")
+                ok = False
+                continue
+            ctx.count("round4.default-dtype")
+            if type(y1).__name__ != "LieTensor" or y1.dtype != dt or y1.shape != y0.shape or y1.ltype != y0.ltype:
+                ctx.fail(case, f"metadata: {what} on {dtn} operands returns {type(y1).__name__} dtype {getattr(y1, 'dtype', None)} shape "
+                               f"{tuple(getattr(y1, 'shape', ()))} under default dtype {other}; documented: the operands' dtype {dt}, shape {tuple(y0.shape)}")
+                ok = False
+            elif not (torch.equal(raw(y0), raw(y1)) if what != "EPnP" else bool((raw(y0) - raw(y1)).abs().max() <= (1e-9 if dtn == "float64" else 1e-2))):
+                ctx.fail(case, f"metadata: values of {what} on {dtn} operands depend on the process default dtype (max diff "
+                               f"{float((raw(y0).double() - raw(y1).double()).abs().max()):.3e})")
+                ok = False
+
+    # ---- (26) sign conventions: focal lengths of either sign (mirrored image axes), principal point of either sign
+    for fx, fy in ((-500.0, 480.0), (500.0, -480.0), (-500.0, -480.0)):
+        for refine in (False, True):
+            pts, pix, K, T, sp = _epnp_problem(r, r.choice([8, 12, 20]), torch.float64, fx=fx, fy=fy)
+            K[0, 2], K[1, 2] = r.choice([-320.0, 320.0]), r.choice([-240.0, 0.0])
+            pix = P.point2pixel(pts, K, T)
+            case = dict(sp, kind="round4", what="negative-focal", fx=fx, fy=fy, refine=refine, f=abs(fx))
+            try:
+                with quiet():
+                    warnings.simplefilter("ignore")
+                    est = P.module.EPnP(K, refine=refine)(pts, pix)
+            except Exception as ex:  # noqa: BLE001
+                ctx.fail(case, f"raises: EPnP raises {type(ex).__name__}: {str(ex)[:100]} with focal lengths ({fx}, {fy})")
+                ok = False
+                continue
+            ctx.count("round4.negative-focal")
+            ok = epnp_compare(ctx, case, est, T, pts, pix, K) and ok
+    return ok
+
+
+def run_round4(ctx: Ctx, n: int):
+    for sd in [404] + [ctx.rng.randrange(1 << 20) for _ in range(n)]:
+        ctx.note_case(("round4", sd % 13), True)
+        check_round4(ctx, sd)
+
+
 # ----------------------------------------------------------------------------- entry points
 
 def run(ctx: Ctx):
@@ -2645,6 +2896,7 @@ def run(ctx: Ctx):
     especs = epnp_corner_specs() + [epnp_spec(rng) for _ in range(ctx.pick(60, 3000))]
     run_icp_kernel(ctx, ctx.pick(30, 1200))
     run_large(ctx)
+    run_round4(ctx, ctx.pick(1, 40))
     run_epnp(ctx, especs)
     run_epnp_scale(ctx, ctx.pick(40, 1500))
     run_histories(ctx, ctx.pick(6, 70), ctx.pick(5, 60))
@@ -2688,6 +2940,8 @@ def replay(ctx: Ctx, case) -> bool:
         c.pop("kind")
         c.pop("call", None)
         check_epnp_case(ctx, c)
+    elif kind == "round4":
+        check_round4(ctx, c["seed"])
     elif kind == "large":
         c.pop("item", None)
         check_large(ctx, c)
